@@ -61,6 +61,10 @@ class PropDef:
     def block_plan(self, tier, rng):
         return []
 
+    def stream(self, tier, rng):
+        """chunks (lists of cases) of a finite domain too large to hold in memory at once"""
+        return iter(())
+
     def expand_block(self, fn, block, config, workdir):
         return None
 
@@ -842,9 +846,10 @@ HDR_SLOTS = ["h_inforeq", "h_address", "h_entry", "h_console", "h_fb", "h_modali
 @register
 class C06(PropDef):
     id = "C06"
+    blocks_exhaustive = True     # thorough: every subset of the builder slots is streamed
     rule = ("BUILD: builder call sequences through the real constructors and builder methods: the empty builder, every slot "
-            "alone, every pair of slots (both orders), 4096 random subsets in random call order (thorough: all 2^22 subsets by "
-            "mask with one fixed image per slot), repeated calls on single slots (last wins) and on repeatable slots (modules, "
+            "alone, every pair of slots (both orders), 4096 random subsets in random call order (thorough: 20000, and streamed ALL "
+            "2^22 subsets by mask with one fixed image per slot), repeated calls on single slots (last wins) and on repeatable slots (modules, "
             "SMBIOS, custom: call order), custom tags with non-custom type numbers (must be rejected); contents of every length "
             "residue. Observed: length, declared total, alignment, load result, walk with each tag's bytes up to its size, final "
             "8 bytes. Non-trivial = distinct cases that build.")
@@ -861,7 +866,7 @@ class C06(PropDef):
         for a in small:
             for b in small:
                 cases.append("BUILD %s,%s" % (mbi_op(rng, a), mbi_op(rng, b)))
-        n = 4096 if tier == "quick" else 0
+        n = 4096 if tier == "quick" else 20000
         for _ in range(n):
             k = rng.randrange(0, 12)
             slots = [rng.choice(small) for _ in range(k)]
@@ -877,12 +882,23 @@ class C06(PropDef):
             cases.append("BUILD " + ",".join(mbi_op(rng, rng.choice(["module", "smbios", "custom"])) for _ in range(n)))
         for s_ in [x for x in MBI_SLOTS if x not in ("module", "smbios", "custom", "vbe")]:
             cases.append("BUILD %s,%s,%s" % (mbi_op(rng, s_), mbi_op(rng, "meminfo"), mbi_op(rng, s_)))
-        if tier == "thorough":
-            fixed_ops = {s: mbi_op(rng, s) for s in small}
-            for mask in range(1 << len(small)):
-                ops = [fixed_ops[s] for i, s in enumerate(small) if mask >> i & 1]
-                cases.append("BUILD " + (",".join(ops) or "-"))
         return cases
+
+    def stream(self, tier, rng):
+        # thorough: ALL 2^22 subsets of the 22 builder slots (one fixed image per slot, the calls in slot order)
+        if tier != "thorough":
+            return
+        fixed_ops = [mbi_op(rng, s) for s in MBI_SLOTS]
+        nbits = int(os.environ.get("VERIF_C06_BITS", str(len(MBI_SLOTS))))
+        chunk = []
+        for mask in range(1 << nbits):
+            ops = [fixed_ops[i] for i in range(nbits) if mask >> i & 1]
+            chunk.append("BUILD " + (",".join(ops) or "-"))
+            if len(chunk) == 1 << 16:
+                yield chunk
+                chunk = []
+        if chunk:
+            yield chunk
 
     def oracle(self, case, impl, config):
         try:
